@@ -3,6 +3,7 @@ CONSTANTS
   Shape = "batch"
   Depth = "quick"
   HopLen = 2
+  ConfSel = "all"
   MinReqs = 1
   MaxReqs = 2
   Variant = "real"
